@@ -1,4 +1,5 @@
 /-! GENERATED from /repo by harness/gen.py on every run — do not edit. -/
+set_option linter.unusedSimpArgs false
 namespace CM.Generated
 
 def defaultIncludedPaths : List String := ["**.py", "**/*.py"]
